@@ -966,6 +966,10 @@ class Patron(object):
             hostname = splits.hostname
             port = splits.port
             scheme = splits.scheme
+            if hostname is None:  # relative location so same scheme host and port
+                hostname = self.requester.hostname
+                port = self.requester.port
+                scheme = scheme or self.requester.scheme
             scheme = 'https' if scheme.lower() == 'https' else 'http'
             if scheme == 'https':
                 secured = True  # use tls socket connection
@@ -988,7 +992,7 @@ class Patron(object):
                                       "host '{0}'".format(location))
                 self.connector.close()
                 if secured:
-                    context = getattr(self.connector, 'context')
+                    context = getattr(self.connector, 'context', None)  # None if was not secured
                     connector = ClientTls(store=self.connector.store,
                                            name=self.connector.name,
                                            uid=self.connector.uid,
